@@ -27,6 +27,9 @@ CHECKS = {
  "C18": dict(design="§6 C18", engine="XH",
              technique="CrossHair (z3) symbolic execution of expand_file_group_paths/_paths_from_file_group against an independent recursive flattening; clock stub with local time and zone offset",
              note="stub: clock (datetime.now with/without tz); structures, date patterns and argument lists from the stated finite shapes"),
+ "C14": dict(design="§5 C14", engine="XH",
+             technique="CrossHair (z3) symbolic execution of run_file_rename over an in-memory directory; page names from a systematic menu, link names by relation to the renamed page",
+             note="stubs: prepend_zdir/get_all_zfiles over an in-memory FS; names and link shapes from finite menus (symbolic names are beyond reach: str.replace)"),
 }
 NA = {
  "C13": "crash points between external effects (SQLite transactions, OS file writes) cannot be made symbolic: the effects are C-level/ORM internals; with them concrete a symbolic crash index is realised at the first effect, which is enumeration of faulted runs, a different technique (DESIGN.md §8)",
